@@ -1,6 +1,7 @@
 package state
 
 import (
+	"encoding/hex"
 	"io/ioutil"
 	"math/big"
 	"os"
@@ -233,5 +234,41 @@ func TestC07ReplayUnsignedSpendScenarios(t *testing.T) {
 			}
 			done()
 		}
+	}
+}
+
+// TestC07ReplayForgedMarkSignature: a transaction that fails ImmediateVerifyTx (alice
+// spends BOB's output with only her own signature) carries a "marked by the regulator"
+// stamp with the regulator's PUBLIC key and a well-formed signature that does not
+// verify. verifyMarkedTx answered nil for a signature check that returned (false, nil),
+// so VerifyTx accepted the transaction.
+func TestC07ReplayForgedMarkSignature(t *testing.T) {
+	st, done := rpNewState(t)
+	defer done()
+	// the regulator is carol-like: here bob's key pair plays the regulator (any configured address does)
+	st.utxo.SetModifyBlockAddr(Users["bob"].Address)
+	raw := rpSpend(t, st, "bob", "alice", 1)
+	tx := rpFinish(t, st, raw, "alice")
+	if ok, _ := st.ImmediateVerifyTx(tx, false); ok {
+		t.Fatal("setup: the transaction must fail the ordinary verification")
+	}
+	// a well-formed ECDSA signature by ALICE over unrelated bytes: wrong key, wrong message
+	xcc, err := crypto_client.CreateCryptoClient(crypto_client.CryptoTypeDefault)
+	if err != nil {
+		t.Fatal(err)
+	}
+	alicePriv, err := xcc.GetEcdsaPrivateKeyFromJsonStr(Users["alice"].PrivateKey)
+	if err != nil {
+		t.Fatal(err)
+	}
+	forged, err := xcc.SignECDSA(alicePriv, []byte("something else entirely"))
+	if err != nil {
+		t.Fatal(err)
+	}
+	tx.ModifyBlock = &pb.ModifyBlock{Marked: true, PublicKey: Users["bob"].Pubkey, Sign: hex.EncodeToString(forged)}
+	ok, verr := st.VerifyTx(tx)
+	t.Logf("VerifyTx = (%v, %v)", ok, verr)
+	if ok && verr == nil {
+		t.Errorf("REPRODUCED: VerifyTx accepted a transaction spending bob's output signed only by alice, on the strength of a regulator mark whose signature does not verify")
 	}
 }
